@@ -27,6 +27,7 @@ type Case struct {
 	Slice int             `json:"slice"`
 	NRec  int             `json:"nrec"`
 	G     int             `json:"g"`
+	Link  bool            `json:"link,omitempty"` // the first input is a symlink to a file elsewhere in the tree, the last lies below a symlinked directory
 	Pre   bool            `json:"pre,omitempty"` // the set is first created with a smaller slice size and more blocks in the same directory (longer files with the same names)
 }
 
@@ -43,6 +44,14 @@ func check(c Case) string {
 		paths = append(paths, filepath.Join(dir, f.Name))
 	}
 	fsx.WriteTree(dir, orig)
+	if c.Link && len(c.Files) >= 1 {
+		// replace the first input by a symlink to a copy stored under another name inside the tree
+		n := c.Files[0].Name
+		os.MkdirAll(filepath.Join(dir, "zreal"), 0o755)
+		os.WriteFile(filepath.Join(dir, "zreal", "target.bin"), orig[n], 0o644)
+		os.Remove(filepath.Join(dir, n))
+		os.Symlink(filepath.Join(dir, "zreal", "target.bin"), filepath.Join(dir, n))
+	}
 	if c.Pre {
 		ps := c.Slice / 2
 		if ps%4 != 0 || ps == 0 {
@@ -308,6 +317,7 @@ func gen(t *rapid.T, big bool) Case {
 	c.NRec = rapid.OneOf(rapid.IntRange(1, min(budget, 12)), rapid.IntRange(1, budget)).Draw(t, "nrec")
 	c.G = rapid.SampledFrom([]int{1, 2, 3, 4, 8, 64}).Draw(t, "g")
 	c.Pre = rapid.IntRange(0, 4).Draw(t, "pre") == 0
+	c.Link = rapid.IntRange(0, 5).Draw(t, "link") == 0
 	return c
 }
 
@@ -323,6 +333,9 @@ func TestCheck(t *testing.T) {
 		}
 		if c.Pre {
 			rec.Class("re-created-over-longer-files")
+		}
+		if c.Link {
+			rec.Class("symlinked-input")
 		}
 		if c.NRec >= 8 {
 			rec.Class("volume-files>=4")
